@@ -250,6 +250,6 @@ impl RandomProp for SizeRandom {
             .boxed()
     }
     fn cases(env: &Env) -> u64 {
-        env.n(13 * 300, 13 * 20_000)
+        env.n(13 * 3000, 13 * 100_000)
     }
 }
